@@ -437,3 +437,8 @@ M("c16-maint-thread-lock-order", "C16", LD + "ldm_maintenance_thread.py",
   "    def search_data_containers(self, data_request: RequestDataObjectsReq) -> tuple[dict, ...]:\n        with self.data_containers_lock:\n            search_result = super().search_data_containers(data_request)",
   "    def search_data_containers(self, data_request: RequestDataObjectsReq) -> tuple[dict, ...]:\n        with self.data_containers._lock, self.data_containers_lock:\n            search_result = super().search_data_containers(data_request)",
   "threaded maintenance takes the database lock before its own lock in search (others take them the other way round)")
+M("c16-unsub-double-ack", "C16", LD + "ldm_service.py",
+  "            if self.remove_subscription(subscription):\n                removed = True\n", "            self.remove_subscription(subscription)\n            removed = True\n",
+  "revert: every concurrent unsubscribe of one subscription reports success")
+M("c10-vam-gdt-wrap", "C10", "flexstack/facilities/vru_awareness_service/vam_transmission_management.py",
+  "            or long_pause\n", "", "revert: elapsed time since the last VAM taken from wrapped generationDeltaTime only")
